@@ -162,6 +162,18 @@ def all_link_batches(pages, max_links=3):
     return out
 
 
+def shape_lrus(max_depth=3, classes=(3, 74, 75, 148, 149, 222)):
+    """Every LRU A + s1 .. sk (k <= max_depth) with stem lengths drawn from `classes`
+    (short, exactly one block, one byte more, two blocks, ...): the stem-length *shapes*."""
+    import itertools
+
+    out = []
+    for k in range(1, max_depth + 1):
+        for lens in itertools.product(classes, repeat=k):
+            out.append(A + b"".join(L.long_stem(n, bytes([0x61 + i])) for i, n in enumerate(lens)))
+    return out
+
+
 SH = b"s:http|"  # a one-stem prefix (scheme-wide catch-all webentity)
 LONGP = Ab + L.long_stem(149)  # a page with a 3-block stem below Ab
 
